@@ -225,6 +225,11 @@ def build(c):
     raise ValueError("ctor %r" % (ctor,))
 
 
+# an 'endless' generator memory: far longer than any filter order, but a reader that drains its memory terminates (and is
+# then seen by the observation of the iterator after the call) instead of hanging the check
+ENDLESS = 50000
+
+
 class _Counting(object):
     """iterator that counts what is pulled from it"""
 
@@ -271,12 +276,12 @@ def _mem_obj(m):
         base, step = val(m["base"]), val(m["step"])
         how = m.get("as", "genexp")
         if how == "stream":
-            return Stream(base + i * step for i in itertools.count())
+            return Stream(base + i * step for i in range(ENDLESS))
         if how == "thub":
-            return thub((base + i * step for i in itertools.count()), 3)
+            return thub((base + i * step for i in range(ENDLESS)), 3)
         if how == "counting":
-            return _Counting(base + i * step for i in itertools.count())
-        return (base + i * step for i in itertools.count())
+            return _Counting(base + i * step for i in range(ENDLESS))
+        return (base + i * step for i in range(ENDLESS))
     form = m["form"]
     if form == "fixed":
         vals = [val(v) for v in m["vals"]]
